@@ -83,7 +83,8 @@ def run(ctx):
     ctx.violation = _cap
     ctx.trusted += [
         "registry linearizability (olric): modelled by C30/Registry.v, not verified",
-        "x/sync singleflight (runSpawnActivation): at most one flight per node and name; joiners share the result (not modelled as steps)",
+        "x/sync singleflight (runSpawnActivation): at most one flight per node and name whatever the callers do; joiners share the result (not modelled as steps); "
+        "checked on the real code by TestVerifC36Abandon (a caller abandons at every scheduling point of its flight, a later caller arrives)",
         "the harness: fake cluster.Cluster with scripted Members(), in-process RemoteSpawn forwarding (errors passed through unserialized), controlled scheduler, instrumented actor",
     ]
     ctx.assumptions += [
